@@ -34,11 +34,22 @@ ASSUMPTIONS = [
     '([select] establishes it, [classify] starts from an arbitrary list); SSHKnownHosts.match uses the composed '
     'contract.  load() is specified through a ghost log of the _add_exact/_add_pattern calls whose effect on the '
     'tables is proved separately; class invariant "every indexed entry has a key, certificate or subject" is '
-    'assumed at _match (AssertionError otherwise) and established by load (each logged entry has one)',
+    'proved on the log produced by load (obligation every-indexed-entry-has-a-key-certificate-or-subject) and '
+    'at _match it appears as the only condition under which AssertionError may escape (not as a requires: it would '
+    'be a quantified invariant over both tables)',
     'equality of keys is the abstract "same key" relation (SSHKey.__eq__ compares public data: not re-verified here)',
+    'option tokenizer: the spec automaton (specs/openssh_files.py tok_*, ref_tokenize_options) is restated from '
+    'OpenSSH sshkey_advance_past_options / opt_dequote: backslash-doublequote is the only escape, every other '
+    'backslash is an ordinary character; the reference oracle is itself validated against ssh-keygen -l '
+    '(C17.bounded#oracle-vs-ssh-keygen-options).  asyncssh is more liberal than sshd about WHERE quotes may appear '
+    '(quotes toggle anywhere in the field); that liberality is part of the spec automaton',
+    'exact index: "" is never a key (class invariant: required by _match / match / _add_exact, re-established by '
+    '_add_exact, the only writer; SSHKnownHosts.__init__ starts from an empty dict); empty lookup names select '
+    'nothing',
     'not under contract: match_known_hosts argument dispatch (callable / list / bytes forms), read_* file access, '
-    '_add_environment / _add_permitopen / _add_subject value parsing (bounded check option-handlers only), '
-    'validate_x509, sshsig allowed-signers entries',
+    'sshsig allowed-signers entries.  _add_environment / _add_permitopen are verified against stubs of the '
+    'options.setdefault(...) call (the dict / set object stored under the option is abstract); validate_x509 is '
+    'verified with entry.match_options as an oracle (its meaning: the match_options contract)',
     '_x509_available is a symbolic flag (False in the sandbox, True with cryptography-x509): both values verified',
 ]
 
@@ -500,8 +511,8 @@ def _kh_cut(fn):
     import ast
     idx = [i for i, st in enumerate(fn.body) if isinstance(st, ast.AugAssign) and
            isinstance(st.target, ast.Name) and st.target.id == 'matches']
-    if len(idx) != 3:
-        raise Unsupported('_match no longer builds `matches` with three += statements (cut point moved)')
+    if not idx:
+        raise Unsupported('_match no longer builds `matches` with += statements (cut point moved)')
     return idx[-1] + 1
 
 
@@ -850,7 +861,7 @@ parse_options = Spec(
     returns='str',
     ensures=[('option-field-ends-at-first-unquoted-blank', tok_end_is_right),
              ('options-are-the-unquoted-comma-tokens', tok_options_post),
-             ('quotes-balanced', lambda c: z3.Not(F.tq(_tok_end(c)[1]))),
+             ('quotes-and-backslashes-balanced', lambda c: z3.Not(F.tq(_tok_end(c)[1]))),   # (label kept: an open quote is the only imbalance, a trailing backslash is literal)
              ('returns-rest-of-line-after-the-blank-stripped', lambda c: z3.Implies(
                  _tok_end(c)[0] < z3.Length(c.arg('line')),
                  c.result == F.strip_s(z3.SubString(c.arg('line'), _tok_end(c)[0],
@@ -992,12 +1003,14 @@ def kh_lines_wellformed(lines, n):
 def kh_load_inv(c):
     it, i = c.extra['iter'].z, c.extra['i']
     return z3.And(c.new('ghost_added') == z3.Concat(c.old('ghost_added'), F.kh_file(F.gprefix(it, i), X509)),
-                  kh_lines_wellformed(it, i))
+                  kh_lines_wellformed(it, i), F.log_wf(F.kh_file(F.gprefix(it, i), X509)))
 
 
 def kh_load_lemmas(c):
     it, i = c.extra['iter'].z, c.extra['i']
-    return F.khf_empty(X509) + F.prefix_facts(it, i) + F.khf_snoc(F.gprefix(it, i - 1), it[i - 1], X509)
+    pre, line = F.gprefix(it, i - 1), it[i - 1]
+    return F.khf_empty(X509) + F.prefix_facts(it, i) + F.khf_snoc(pre, line, X509) + F.logwf_empty() + \
+        F.logwf_snoc(F.kh_file(pre, X509), F.kh_line(line, X509)['log'])
 
 
 def kh_load_malformed(c):
@@ -1020,6 +1033,9 @@ kh_load = Spec(
     ensures=[('one-index-op-per-parsable-line(skip+routing)',
               lambda c: c.new('ghost_added') == z3.Concat(
                   c.old('ghost_added'), F.kh_file(F.splitlines(c.arg('known_hosts')), X509))),
+             # class invariant relied on by _match (its `assert subject is not None`): established here
+             ('every-indexed-entry-has-a-key-certificate-or-subject',
+              lambda c: F.log_wf(F.kh_file(F.splitlines(c.arg('known_hosts')), X509))),
              ('no-malformed-line-or-unknown-marker-accepted',
               lambda c: kh_lines_wellformed(F.splitlines(c.arg('known_hosts')),
                                             z3.Length(F.splitlines(c.arg('known_hosts')))))],
@@ -1089,7 +1105,8 @@ ak_load = Spec(
               lambda c: ak_load_state(c, _ak_lines(c), z3.Length(_ak_lines(c)))),
              ('some-valid-entry-exists', lambda c: z3.Or(*[z3.Length(c.new(f)) > 0 for f in AK_LISTS]))],
     raises={'ValueError': ak_load_raises})
-ak_load.opaque_attrs = {('Entry', 'key'): 'opt[opaque:Key]', ('Entry', 'options'): 'opaque:Options'}
+ak_load.opaque_attrs = {('Entry', 'key'): 'opt[opaque:Key]', ('Entry', 'options'): 'opaque:Options',
+                        ('Entry', 'cert'): 'opt[opaque:Cert]'}
 ak_load.no_replay = True
 ak_load.feasible_timeout_ms = 250
 
@@ -1239,6 +1256,191 @@ set_string = Spec(
         c.newv('options').val == z3.Store(c.oldv('options').val, c.arg('option'),
                                           pyobj_sort().py_str(c.arg('value')))))])
 set_string.no_replay = True
+
+
+# ----------------------------------------------------------------------------- auth_keys.py: environment / permitopen
+def _env_setdefault_stub(cx):
+    """self.options.setdefault(name, {}): the dict object stored under the option (an arbitrary existing str->str
+    map, or the fresh empty one) as a heap cell; the handler's item store updates that object in place"""
+    if not (isinstance(cx.ex.deref(cx.st, cx.args[1]), VDict) and not cx.ex.deref(cx.st, cx.args[1]).items):
+        raise Unsupported('environment: setdefault default is not {}')
+    m = cx.fresh('dict[str,str]', 'env_of_option')
+    ref = cx.st.alloc(m)
+    return [Out(ret=ref, event=('setdefault', (cx.args[0], ref, m)))]
+
+
+_env_setdefault_stub.modifies = ()
+
+
+def add_environment_post(c):
+    """sshd(8): environment="NAME=value" - the name is the text before the FIRST '=', the value everything after it;
+    the variable is added to (or replaces its value in) the environment collected under the option"""
+    v = c.arg('value')
+    evs = c.events('setdefault')
+    if len(evs) != 1:
+        return z3.BoolVal(False)
+    opt_name, ref, m0 = evs[0][1]
+    m1 = c.new_state.heap[ref.addr]
+    k = z3.IndexOf(v, EQ, z3.IntVal(0))
+    name, val = z3.SubString(v, z3.IntVal(0), k), z3.SubString(v, k + 1, z3.Length(v) - k - 1)
+    return z3.And(opt_name.z == c.arg('option'), k > 0,
+                  m1.dom == z3.Store(m0.dom, name, True), m1.val == z3.Store(m0.val, name, val))
+
+
+add_environment = Spec(
+    PROP, 'auth_keys', '_SSHAuthorizedKeyEntry._add_environment', self_class='_SSHAuthorizedKeyEntry',
+    params=dict(option='str', value='str'), classes={'_SSHAuthorizedKeyEntry': {}},
+    stubs={'self.options.setdefault': _env_setdefault_stub},
+    ensures=[('NAME=value-split-at-first-equals-and-stored', add_environment_post)],
+    raises={'ValueError': lambda c: z3.And(z3.BoolVal(len(c.events('setdefault')) == 0),
+                                           z3.Or(z3.PrefixOf(EQ, c.arg('value')),
+                                                 z3.Not(z3.Contains(c.arg('value'), EQ))))})
+add_environment.no_replay = True
+COLON = z3.StringVal(':')
+int_ok = z3.Function('int_literal_ok_s', StrS, BoolS)        # int(text) does not raise (engine symbols)
+int_val = z3.Function('int_literal_val_s', StrS, IntS)
+
+
+def _permit_setdefault_stub(cx):
+    d = cx.ex.deref(cx.st, cx.args[1])
+    if not (isinstance(d, VSet) and not d.items):
+        raise Unsupported('permitopen: setdefault default is not set()')
+    return [Out(ret=VOpaque(z3.Const(fresh_name('permitted_opens'), opaque_sort('PermitSet')), 'PermitSet'),
+                event=('setdefault', (cx.args[0],)))]
+
+
+def _permit_add_stub(cx):
+    return [Out(event=('add', (cx.args[0],)))]
+
+
+_permit_setdefault_stub.modifies = _permit_add_stub.modifies = ()
+
+
+def _permit_parts(v):
+    k = z3.LastIndexOf(v, COLON)
+    host, port = z3.SubString(v, z3.IntVal(0), k), z3.SubString(v, k + 1, z3.Length(v) - k - 1)
+    bracketed = z3.And(z3.PrefixOf(z3.StringVal('['), host), z3.SuffixOf(z3.StringVal(']'), host))
+    return k, z3.If(bracketed, z3.SubString(host, 1, z3.Length(host) - 2), host), port
+
+
+def add_permitopen_post(c):
+    """sshd(8): permitopen="host:port"; IPv6 addresses are written in square brackets (stripped); port '*' matches
+    any port.  The pair is split at the LAST ':' and added to the set collected under the option"""
+    v = c.arg('value')
+    sd, adds = c.events('setdefault'), c.events('add')
+    if len(sd) != 1 or len(adds) != 1:
+        return z3.BoolVal(False)
+    k, host, port = _permit_parts(v)
+    item = adds[0][1][0]
+    if not isinstance(item, VTuple) or len(item.items) != 2:
+        return z3.BoolVal(False)
+    h, p = item.items
+    star = port == z3.StringVal('*')
+    p_ok = z3.If(star, c.is_none(p), z3.And(z3.Not(c.is_none(p)), int_ok(port),
+                                          (p.val.z if isinstance(p, VOpt) else p.z if isinstance(p, VInt)
+                                           else z3.IntVal(0)) == int_val(port))) if p is not VNone else star
+    return z3.And(sd[0][1][0].z == c.arg('option'), z3.Contains(v, COLON), h.z == host, p_ok)
+
+
+add_permitopen = Spec(
+    PROP, 'auth_keys', '_SSHAuthorizedKeyEntry._add_permitopen', self_class='_SSHAuthorizedKeyEntry',
+    params=dict(option='str', value='str'), classes={'_SSHAuthorizedKeyEntry': {}},
+    stubs={'self.options.setdefault': _permit_setdefault_stub, 'permitted_opens.add': _permit_add_stub},
+    ensures=[('host:port-split-at-last-colon(brackets-stripped,*-is-any-port)', add_permitopen_post)],
+    raises={'ValueError': lambda c: z3.And(
+        z3.BoolVal(len(c.events('setdefault')) == 0 and len(c.events('add')) == 0),
+        z3.Or(z3.Not(z3.Contains(c.arg('value'), COLON)),
+              z3.And(_permit_parts(c.arg('value'))[2] != z3.StringVal('*'),
+                     z3.Not(int_ok(_permit_parts(c.arg('value'))[2])))))})
+add_permitopen.no_replay = True
+mk_xpat = z3.Function('X509NamePattern_of', StrS, XPAT)
+
+
+def _subject_post(c):
+    m0, m1 = c.oldv('options'), c.newv('options')
+    o, v = c.arg('option'), c.arg('value')
+    old = z3.If(z3.Select(m0.dom, o), z3.Select(m0.val, o), z3.Empty(z3.SeqSort(XPAT)))
+    return z3.If(X509, z3.And(m1.dom == z3.Store(m0.dom, o, True),
+                              m1.val == z3.Store(m0.val, o, z3.Concat(old, z3.Unit(mk_xpat(v))))),
+                 z3.And(m1.dom == m0.dom, m1.val == m0.val))
+
+
+def _xpat_ctor_stub(cx):
+    return VOpaque(mk_xpat(cx.args[0].z), 'XPat')
+
+
+_xpat_ctor_stub.modifies = ()
+add_subject = Spec(
+    PROP, 'auth_keys', '_SSHAuthorizedKeyEntry._add_subject', self_class='_SSHAuthorizedKeyEntry',
+    params=dict(option='str', value='str'),
+    classes={'_SSHAuthorizedKeyEntry': {'options': 'dict[str,seq[opaque:XPat]]'}},
+    globals={'_x509_available': VBool(X509)}, stubs={'X509NamePattern': _xpat_ctor_stub},
+    ensures=[('subject-patterns-accumulate(when-x509-available)', _subject_post)])
+add_subject.no_replay = True
+
+
+# ----------------------------------------------------------------------------- auth_keys.py: validate_x509
+X509NAME = opaque_sort('X509Name')
+CHAIN = opaque_sort('Chain')
+entry_cert = z3.Function('attr_Entry_cert', ENTRY, sort_of('opt[opaque:Cert]'))
+cert_key = z3.Function('attr_Cert_key', opaque_sort('Cert'), KEY)
+chain_key = z3.Function('attr_Chain_key', CHAIN, KEY)
+chain_subject = z3.Function('attr_Chain_subject', CHAIN, X509NAME)
+chain_principals = z3.Function('attr_Chain_user_principals', CHAIN, SSTR)
+entry_accepts_x = z3.Function('entry_match_options_x509', ENTRY, StrS, StrS, SSTR, X509NAME, BoolS)
+
+
+def entry_match_options_x_stub(cx):
+    a = cx.args
+    return VBool(entry_accepts_x(cx.recv.z, a[0].z, a[1].z, a[2].z, a[3].z))
+
+
+entry_match_options_x_stub.modifies = ()
+
+
+def _xhit(c, e):
+    """the line applies to the presented certificate: a pinned (non-CA) certificate must be this one (same key and
+    subject), and the line's from= / principals= / subject restrictions accept the client"""
+    ch = c.arg('cert')
+    cv = from_z3(entry_cert(e), 'opt[opaque:Cert]')
+    ca = F.options_has(options_of(e), CA)
+    pinned_other = z3.And(z3.Not(cv.isnone), z3.Not(ca),
+                          z3.Or(chain_key(ch) != cert_key(cv.val.z), chain_subject(ch) != cert_subject(cv.val.z)))
+    return z3.And(z3.Not(pinned_other),
+                  entry_accepts_x(e, c.arg('client_host'), c.arg('client_addr'), chain_principals(ch),
+                                  chain_subject(ch)))
+
+
+def validate_x509_inv(c):
+    it, i = c.extra['iter'].z, c.extra['i']
+    j = z3.Int(fresh_name('j'))
+    return z3.ForAll([j], z3.Implies(z3.And(j >= 0, j < i), z3.Not(_xhit(c, it[j]))))
+
+
+def validate_x509_post(c):
+    E = c.old('_x509_entries')
+    j, k0 = z3.Int(fresh_name('j')), z3.Int(fresh_name('k0'))
+    opts, cert = c.result_v.items
+    if opts is VNone:
+        return z3.And(c.is_none(cert),
+                      z3.ForAll([j], z3.Implies(z3.And(j >= 0, j < z3.Length(E)), z3.Not(_xhit(c, E[j])))))
+    return z3.Exists([k0], z3.And(k0 >= 0, k0 < z3.Length(E), _xhit(c, E[k0]), opts.z == options_of(E[k0]),
+                                  to_z3(cert, 'opt[opaque:Cert]') == entry_cert(E[k0]),
+                                  z3.ForAll([j], z3.Implies(z3.And(j >= 0, j < k0), z3.Not(_xhit(c, E[j]))))))
+
+
+validate_x509 = Spec(
+    PROP, 'auth_keys', 'SSHAuthorizedKeys.validate_x509', self_class='SSHAuthorizedKeys',
+    params=dict(cert='opaque:Chain', client_host='str', client_addr='str'),
+    classes={'SSHAuthorizedKeys': {'_x509_entries': 'seq[opaque:Entry]'}},
+    stubs={'entry.match_options': entry_match_options_x_stub},
+    loops={1: LoopSpec(invariant=validate_x509_inv)},
+    ensures=[('first-x509-entry-that-applies-and-whose-options-accept', validate_x509_post)])
+validate_x509.opaque_attrs = {('Entry', 'cert'): 'opt[opaque:Cert]', ('Entry', 'options'): 'opaque:Options',
+                              ('Cert', 'key'): 'opaque:Key', ('Cert', 'subject'): 'opaque:X509Name',
+                              ('Chain', 'key'): 'opaque:Key', ('Chain', 'subject'): 'opaque:X509Name',
+                              ('Chain', 'user_principals'): 'seq[str]'}
+validate_x509.no_replay = True
 
 
 # ----------------------------------------------------------------------------- lemmas and bounded stand-ins
